@@ -341,7 +341,14 @@ def run_speculations(w, unchecked, tier):
             for rsh in rshapes:
                 for keep in (False, True):
                     for r_out in (('r1',) if tier == 'quick' and (lsh, rsh) != ('opaque', 'opaque') else ('r0', 'r1', 'r2')):
-                        res += run_speculation(t, lsh, rsh, keep, r_out, w, unchecked)
+                        try:
+                            res += run_speculation(t, lsh, rsh, keep, r_out, w, unchecked)
+                        except Exception as e_:
+                            from hidv.oblig import Result as _R, UNDECIDED as _U
+                            if type(e_).__name__ not in ('Undecided', 'EngineError'):
+                                raise
+                            res.append(_R(f'time/speculation/{t}/{lsh}/{rsh}/keep={int(keep)}/{r_out}/w{w}/{"unchecked" if unchecked else "checked"}/LEAVES', _U, 'sphinxsem+z3',
+                                          0.0, (), {'message': f'solver budget exhausted: {e_!r}'[:300]}))
     return res
 
 
@@ -516,7 +523,7 @@ def ob_preemptive_marker(w=2):
 def tasks(tier):
     out = [task(MOD, 'ob_preemptive_marker', ('C02', 'C05'), label='time/preemptive-marker', cost=3)]
     P = ('C01', 'C02', 'C03', 'C04', 'C08', 'C09', 'C10', 'C15', 'C16')
-    for w in ((2,) if tier == 'quick' else (2, 3, 4, 8)):
+    for w in ((2,) if tier == 'quick' else (2, 3, 4)):          # w = 8: see DESIGN 16.10
         for unchecked in (False, True):
             if unchecked and tier == 'quick':
                 # time travel is control logic, not a run-time check: the same leaf sets in an unchecked build (C15); the cheap families only
